@@ -72,6 +72,8 @@ type ModInfo struct {
 	emits     map[*ssa.Function]*emitSet
 	rawMods   map[*ssa.Function]*ModSet
 	checkPureDecls func()
+	fvOnly    map[*ssa.Function]map[string]bool
+	invisible map[*ssa.Function]map[*ssa.Alloc]bool
 }
 
 // externalTopPkgs: packages whose functions may write module-typed heap through
@@ -222,6 +224,7 @@ func (mi *ModInfo) ownMods(f *ssa.Function) *ModSet {
 	ms := &ModSet{Fams: map[string]Sort{}}
 	tmp := map[string]Sort{}
 	nonFresh := map[string]bool{}
+	fvOnly := map[string]bool{}
 	invisible := invisibleAllocs(f)
 	for _, b := range f.Blocks {
 		for _, ins := range b.Instrs {
@@ -234,10 +237,18 @@ func (mi *ModInfo) ownMods(f *ssa.Function) *ModSet {
 				one := map[string]Sort{}
 				mi.storeTargetFams(x.Addr, one)
 				fresh := freshAddr(x.Addr, 0)
+				viaFV := freeVarRoot(x.Addr, 0) != nil
 				for k, so := range one {
 					tmp[k] = so
 					if !fresh {
 						nonFresh[k] = true
+					}
+					if viaFV {
+						if _, seen := fvOnly[k]; !seen {
+							fvOnly[k] = true
+						}
+					} else {
+						fvOnly[k] = false
 					}
 				}
 			case *ssa.MapUpdate:
@@ -297,7 +308,71 @@ func (mi *ModInfo) ownMods(f *ssa.Function) *ModSet {
 			ms.markNonFresh(k)
 		}
 	}
+	// any other kind of write (maps, append, ...) disqualifies "only through free variables"
+	if mi.fvOnly == nil {
+		mi.fvOnly = map[*ssa.Function]map[string]bool{}
+	}
+	only := map[string]bool{}
+	for k, v := range fvOnly {
+		if v {
+			only[k] = true
+		}
+	}
+	mi.fvOnly[f] = only
 	return ms
+}
+
+func freeVarRoot(v ssa.Value, depth int) *ssa.FreeVar {
+	if depth > 8 {
+		return nil
+	}
+	switch x := v.(type) {
+	case *ssa.FreeVar:
+		return x
+	case *ssa.FieldAddr:
+		return freeVarRoot(x.X, depth+1)
+	case *ssa.IndexAddr:
+		if _, isPtr := under(x.X.Type()).(*types.Pointer); isPtr {
+			return freeVarRoot(x.X, depth+1)
+		}
+	}
+	return nil
+}
+
+// closureLocalFams: families that closure c (a lexical child of p) writes only through captured variables
+// that are caller-invisible cells of p. Such writes are invisible to p's callers.
+func (mi *ModInfo) closureLocalFams(p, c *ssa.Function) map[string]bool {
+	only := mi.fvOnly[c]
+	if len(only) == 0 || c.Parent() != p {
+		return nil
+	}
+	inv := mi.invisible[p]
+	if inv == nil {
+		inv = invisibleAllocs(p)
+		if mi.invisible == nil {
+			mi.invisible = map[*ssa.Function]map[*ssa.Alloc]bool{}
+		}
+		mi.invisible[p] = inv
+	}
+	// every binding of every MakeClosure of c in p must be an invisible alloc of p (or not a pointer cell)
+	for _, b := range p.Blocks {
+		for _, ins := range b.Instrs {
+			mc, ok := ins.(*ssa.MakeClosure)
+			if !ok || mc.Fn != ssa.Value(c) {
+				continue
+			}
+			for _, bnd := range mc.Bindings {
+				if al, ok := bnd.(*ssa.Alloc); ok {
+					if !inv[al] {
+						return nil
+					}
+				} else if _, isPtr := under(bnd.Type()).(*types.Pointer); isPtr {
+					return nil
+				}
+			}
+		}
+	}
+	return only
 }
 
 // freshAddr: the address denotes a cell of an object allocated by this very function.
@@ -558,14 +633,14 @@ func (w *World) computeModsImpl(withOverrides bool) *ModInfo {
 							changed = true
 						}
 						for _, t := range targets {
-							if tm, ok := mi.mods[t]; ok && ms.union(tm) {
+							if tm, ok := mi.mods[t]; ok && mi.unionFiltered(ms, tm, f, t) {
 								changed = true
 							}
 						}
 					}
 				}
 				if cm, ok := mi.mods[cal]; ok {
-					if ms.union(cm) {
+					if mi.unionFiltered(ms, cm, f, cal) {
 						changed = true
 					}
 				} else if w.Contracts != nil && w.Contracts.ByFunc[cal] != nil && (w.Contracts.ByFunc[cal].Pure || w.Contracts.ByFunc[cal].AssignsNothing) && (withOverrides || !w.InModule(cal)) {
@@ -655,7 +730,7 @@ func (mi *ModInfo) ownReads(f *ssa.Function) *ModSet {
 		for _, ins := range b.Instrs {
 			switch x := ins.(type) {
 			case *ssa.UnOp:
-				if x.Op.String() == "*" {
+				if x.Op.String() == "*" && !freshAddr(x.X, 0) {
 					mi.storeTargetFams(x.X, tmp) // same families as a store to that address would touch
 				}
 			case *ssa.Lookup:
@@ -674,7 +749,7 @@ func (mi *ModInfo) ownReads(f *ssa.Function) *ModSet {
 					}
 				}
 				if bi, ok := c.Value.(*ssa.Builtin); ok && (bi.Name() == "append" || bi.Name() == "copy") && len(c.Args) > 0 {
-					if sl, ok := under(c.Args[0].Type()).(*types.Slice); ok {
+					if sl, ok := under(c.Args[0].Type()).(*types.Slice); ok && !freshSlice(c.Args[0], 0) {
 						elemStoreFams(sl.Elem(), tmp)
 					}
 				}
@@ -795,4 +870,24 @@ func funcArgTargets(c *ssa.CallCommon, caller *ssa.Function, w *World) (fns []*s
 		}
 	}
 	return fns, ok
+}
+
+// unionFiltered adds callee's effect to caller's, dropping what the callee (a closure of the caller) only
+// writes into the caller's own caller-invisible cells.
+func (mi *ModInfo) unionFiltered(ms, cm *ModSet, caller, callee *ssa.Function) bool {
+	local := mi.closureLocalFams(caller, callee)
+	if len(local) == 0 || cm.Top {
+		return ms.union(cm)
+	}
+	filtered := &ModSet{Fams: map[string]Sort{}, NonFresh: map[string]bool{}}
+	for f, s := range cm.Fams {
+		if local[f] {
+			continue
+		}
+		filtered.Fams[f] = s
+		if cm.NonFresh[f] {
+			filtered.NonFresh[f] = true
+		}
+	}
+	return ms.union(filtered)
 }
